@@ -74,8 +74,62 @@ class Check(PropertyCheck):
         return ImplViews()
 
     def generate(self, rng, n, tier):
+        # the benchmark instances shipped with the library go through the same dictionary form (load_benchmark_instance):
+        # a few per quick run, all of them in the thorough tier
+        import json as _json
+        from importlib import resources as _res
+        entries = _json.loads(_res.files("job_shop_lib.benchmarking").joinpath("benchmark_instances.json").read_text())
+        names = sorted(entries)
+        picked = names if tier == "thorough" else rng.sample(names, 6)
+        for name in picked:
+            lines = ["new", f"mark benchmark {name}"]
+            e = entries[name]
+            if sum(len(r) for r in e["duration_matrix"]) <= 300:
+                # small enough to go through the model as well: views and both round trips of the same operations
+                jobs = [[([m] if not isinstance(m, list) else m, d) for m, d in zip(mr, dr)]
+                        for mr, dr in zip(e["machines_matrix"], e["duration_matrix"])]
+                lines += [instance_line(jobs), "views", "dict", "taillard"]
+            yield Scenario(lines, {"kind": "benchmark", "family": "benchmark"})
         for i in range(n):
             yield self.scenario(rng, i)
+
+    @staticmethod
+    def benchmark_oracle(name):
+        """load_benchmark_instance(name) is the instance the JSON entry describes; its dictionary form is that entry again; using the
+        instance (a rule solver runs on it) changes neither the instance nor what the next load returns."""
+        import copy
+        import json as _json
+        from importlib import resources as _res
+        import jsl
+        from job_shop_lib.benchmarking import load_benchmark_instance, load_benchmark_json
+        from job_shop_lib.dispatching.rules import DispatchingRuleSolver
+        res = []
+        entry = _json.loads(_res.files("job_shop_lib.benchmarking").joinpath("benchmark_instances.json").read_text())[name]
+        inst = load_benchmark_instance(name)
+        dm, mm = entry["duration_matrix"], entry["machines_matrix"]
+        got_d = [[op.duration for op in job] for job in inst.jobs]
+        got_m = [[list(op.machines) for op in job] for job in inst.jobs]
+        want_m = [[c if isinstance(c, list) else [c] for c in row] for row in mm]
+        if inst.name != name or got_d != dm or got_m != want_m:
+            res.append(("benchmark-load", f"load_benchmark_instance({name!r}) does not have the operations / name of its JSON entry"))
+        if inst.metadata != entry["metadata"]:
+            res.append(("benchmark-load", f"load_benchmark_instance({name!r}).metadata differs from the JSON entry"))
+        ids = [op.operation_id for job in inst.jobs for op in job]
+        if ids != list(range(len(ids))) or inst.num_jobs != len(dm) or inst.num_machines != 1 + max(m for row in want_m for c in row for m in c):
+            res.append(("view:ids", f"{name}: operation ids / counts do not match the matrices"))
+        d = _json.loads(_json.dumps(inst.to_dict()))
+        if d != {"name": name, "duration_matrix": dm, "machines_matrix": mm, "metadata": entry["metadata"]}:
+            res.append(("roundtrip:dict", f"{name}: to_dict() is not the JSON entry it was loaded from"))
+        back = jsl.JobShopInstance.from_matrices(**d)
+        if oracles.dump_instance(back) != oracles.dump_instance(inst):
+            res.append(("roundtrip:dict", f"{name}: from_matrices(**to_dict()) differs from the loaded instance"))
+        before = (oracles.dump_instance(inst), copy.deepcopy(load_benchmark_json()[name]))
+        DispatchingRuleSolver(dispatching_rule="most_work_remaining").solve(inst)
+        again = load_benchmark_instance(name)
+        if (oracles.dump_instance(inst), load_benchmark_json()[name]) != before or \
+                oracles.dump_instance(again) != before[0]:
+            res.append(("mutated", f"{name}: solving the loaded instance changed it, the cached JSON, or what the next load returns"))
+        return res
 
     def scenario(self, rng: random.Random, i) -> Scenario:
         kind = ["instance", "jobseq", "jobseq", "immut"][i % 4]
@@ -124,6 +178,8 @@ class Check(PropertyCheck):
 
     def oracle(self, impl, scenario, index, line, out, ctx):
         res = []
+        if line.startswith("mark benchmark"):
+            return self.benchmark_oracle(line.split()[2])
         I = impl.instance
         if line.startswith("inst"):
             ctx["dump0"] = oracles.dump_instance(I)
